@@ -251,3 +251,35 @@ Theorem caps_accept_iff fg st k v : mem_str k cap_field_names = true ->
 Proof.
   intro Hk. rewrite <- cap_asserts_spec. unfold cap_set_one. destruct (cap_asserts v); [|rewrite Hk]; cbn [snd]; split; auto; discriminate.
 Qed.
+
+(* ---------------- names through the element handles (name setter, rename) ---------------- *)
+
+(* FULL STATEMENT (false of the faithful model, see elem_name_handle_refuted):
+     forall cls r m old s h g e, lookup cls name_rules = Some (r, m) -> re_lang r old ->
+       elem_set_name cls old s = ((h, g), e) -> re_lang r h /\ re_lang r g
+   i.e. whatever name can be read afterwards -- from the handle or from the model -- is documented. *)
+
+(* what holds: the name in the model graph is always documented; it changes exactly when the assignment is
+   accepted; only the handle's cached copy can hold a rejected string, and only after an exception *)
+Theorem elem_name_graph_partial cls r m old s h g e :
+  lookup cls name_rules = Some (r, m) -> re_lang r old -> elem_set_name cls old s = ((h, g), e) ->
+  re_lang r g /\ (e = None -> h = s /\ g = s /\ re_lang r s) /\ (e <> None -> g = old /\ ~ re_lang r s).
+Proof.
+  intros Hl Hold. unfold elem_set_name.
+  destruct (set_name cls (SStr s)) as [s'|x] eqn:E; intro X; inversion X; subst;
+    pose proof (set_name_iff_lang cls r m g Hl) as Hs.
+  - apply set_name_stores_argument in E as E'. inversion E'; subst s'. apply Hs in E.
+    split; [exact E|]. split; [auto | intro C; exfalso; apply C; reflexivity].
+  - split; [exact Hold|]. split; [discriminate|]. intros _. split; [reflexivity|].
+    intro L. apply (set_name_iff_lang cls r m h Hl) in L. congruence.
+Qed.
+
+Theorem elem_name_handle_refuted :
+  exists cls old s, set_name cls (SStr old) = Ok old /\
+    match elem_set_name cls old s with
+    | ((h, g), Some _) => set_name cls (SStr h) <> Ok h /\ g = old
+    | _ => False
+    end.
+Proof.
+  exists (S"NodeSliver"), (S"n1"), (S"x"). vm_compute. split; [reflexivity|]. split; [discriminate | reflexivity].
+Qed.
